@@ -1,0 +1,36 @@
+//go:build verif
+
+package store
+
+import "github.com/canopy-network/canopy/lib"
+
+// Verification hooks for the sparse Merkle tree (build tag `verif` only; add-only).
+// SMT.Commit / SMT.CommitParallel take a map of the unexported type valueOp; these wrappers let the
+// external correspondence harness hand in a batch of operations on user keys.
+
+// VerifSMTOp is one deferred state operation: set(Key, Value) or delete(Key) on a *user* key
+// (the tree itself hashes key and value, as Store.Root() has it do).
+type VerifSMTOp struct {
+	Key, Value []byte
+	Delete     bool
+}
+
+func verifSMTOps(ops []VerifSMTOp) map[uint64]valueOp {
+	m := make(map[uint64]valueOp, len(ops))
+	for _, o := range ops {
+		v := valueOp{key: o.Key, value: o.Value, op: opSet}
+		if o.Delete {
+			v = valueOp{key: o.Key, op: opDelete}
+		}
+		m[lib.MemHash(o.Key)] = v
+	}
+	return m
+}
+
+// VerifCommit runs the sequential SMT.Commit on the batch.
+func (s *SMT) VerifCommit(ops []VerifSMTOp) lib.ErrorI { return s.Commit(verifSMTOps(ops)) }
+
+// VerifCommitParallel runs SMT.CommitParallel on the batch (falls back to Commit exactly as in production).
+func (s *SMT) VerifCommitParallel(ops []VerifSMTOp) lib.ErrorI {
+	return s.CommitParallel(verifSMTOps(ops))
+}
